@@ -26,7 +26,9 @@ EFFECTS = [
 ]
 # grouping expressions: (text, list of factor terms)
 GROUPS = [("g", [("g",)]), ("g + h", [("g",), ("h",)]), ("g:h", [("g", "h")]), ("h:g", [("h", "g")]),
-          ("g/h", [("g",), ("g", "h")]), ("C(k)", [("k",)])]
+          ("g/h", [("g",), ("g", "h")]), ("C(k)", [("k",)]),
+          # a numeric column used as grouping factor (forced to categoric): levels in numeric order, not in string order
+          ("k", [("k",)]), ("k:h", [("k", "h")])]
 EXTRA = [  # combinations of several group terms
     "(0 + c|g) + (1|g)", "(1|g) + (0 + c|g)", "(0 + c|g) + (x|g)", "(1|g) + (0 + c|g + h)", "(1|h) + (0 + c|g + h)",
     "(0 + c|g + h) + (x|h)", "(x|g) + (0 + z|g)", "(1|g) + (0 + x|g) + (0 + c|g)", "(c|g) + (e|h)", "(0 + x|g) + (1|h)",
@@ -162,8 +164,10 @@ def make_known():
 
 
 def PROOFS():
-    from ..contracts import utils_c, terms_c
-    return [("vf.contracts.utils_c", utils_c.FUNCTIONS), ("vf.contracts.terms_c", ["formulae.terms.terms.GroupSpecificTerm.eval_new_data"])]
+    from ..contracts import utils_c, terms_c, variable_c  # noqa: F401
+    return [("vf.contracts.utils_c", utils_c.FUNCTIONS), ("vf.contracts.terms_c", ["formulae.terms.terms.GroupSpecificTerm.eval_new_data"]),
+            # the coding of a grouping factor: sorted duplicate-free levels, one indicator column per level
+            ("vf.contracts.variable_c", ["formulae.terms.variable.Variable.eval_categoric", "formulae.terms.call.Call.eval_categoric"])]
 
 
 def run(report, findings):
